@@ -197,19 +197,20 @@ def build_cpp(names, log, extra_flags=None):
             todo.append((n, src, exe, flags))
     procs = []
     for n, src, exe, flags in todo:
-        cmd = ["timeout", "1500", "g++"] + flags + [src, "-o", exe + ".tmp"]
+        tmp = exe + ".tmp%d" % os.getpid()
+        cmd = ["timeout", "1500", "g++"] + flags + [src, "-o", tmp]
         if "mpi" in n: cmd[2] = "mpicxx"
-        procs.append((n, exe, subprocess.Popen(cmd, stdout=subprocess.PIPE, stderr=subprocess.STDOUT, text=True)))
+        procs.append((n, exe, tmp, subprocess.Popen(cmd, stdout=subprocess.PIPE, stderr=subprocess.STDOUT, text=True)))
     errs = {}
-    for n, exe, p in procs:
+    for n, exe, tmp, p in procs:
         out, _ = p.communicate()
         if p.returncode != 0:
             errs[n] = out
         else:
-            os.replace(exe + ".tmp", exe)
+            os.replace(tmp, exe)
             # keep only the 2 most recent binaries per driver
             d = os.path.dirname(exe)
-            olds = sorted([os.path.join(d, f) for f in os.listdir(d) if not f.endswith(".tmp")], key=os.path.getmtime)
+            olds = sorted([os.path.join(d, f) for f in os.listdir(d) if ".tmp" not in f], key=os.path.getmtime)
             for o in olds[:-8]:
                 try: os.remove(o)
                 except OSError: pass
